@@ -291,6 +291,11 @@ func (ef *Filter) Process(ctx context.Context, e *eventlogger.Event) (*eventlogg
 					if err := ef.filterField(ctx, f, filterOverrides, tm, opts...); err != nil {
 						return nil, fmt.Errorf("%s: %w", op, err)
 					}
+				case fkind == reflect.Slice:
+					// a slice of slices: the inner slice's elements are filtered too
+					if err := ef.filterSliceElements(ctx, f, filterOverrides, tm, opts...); err != nil {
+						return nil, fmt.Errorf("%s: %w", op, err)
+					}
 				default:
 					// nothing reasonable yet...
 				}
@@ -444,6 +449,11 @@ func (ef *Filter) filterField(ctx context.Context, v reflect.Value, filterOverri
 						if err := ef.filterField(ctx, f, filterOverrides, tm, opt...); err != nil {
 							return err
 						}
+					case fkind == reflect.Slice:
+						// a slice of slices: the inner slice's elements are filtered too
+						if err := ef.filterSliceElements(ctx, f, filterOverrides, tm, opt...); err != nil {
+							return err
+						}
 					default:
 						// nothing reasonable yet...
 					}
@@ -474,6 +484,41 @@ func (ef *Filter) filterField(ctx context.Context, v reflect.Value, filterOverri
 			t := &tMap{value: field}
 			if err := tm.trackMap(t); err != nil {
 				return fmt.Errorf("%s: %w", op, err)
+			}
+		}
+	}
+	return nil
+}
+
+// filterSliceElements will filter the elements of a slice found within another
+// slice (a [][]T): structs, pointers to structs, maps and further slices of
+// those are filtered just as they are when the outer slice holds them directly.
+func (ef *Filter) filterSliceElements(ctx context.Context, slice reflect.Value, filterOverrides map[DataClassification]FilterOperation, tm *trackedMaps, opt ...Option) error {
+	const op = "event.(Filter).filterSliceElements"
+	for i := 0; i < slice.Len(); i++ {
+		f := slice.Index(i)
+		if ef.ignore(f) {
+			continue
+		}
+		if f.Kind() == reflect.Ptr {
+			if f.IsNil() {
+				continue
+			}
+			f = f.Elem()
+		}
+		switch f.Kind() {
+		case reflect.Map:
+			// track the orig element (before any pointer was dereferenced)
+			if err := tm.trackMap(&tMap{value: slice.Index(i)}); err != nil {
+				return fmt.Errorf("%s: %w", op, err)
+			}
+		case reflect.Struct:
+			if err := ef.filterField(ctx, f, filterOverrides, tm, opt...); err != nil {
+				return fmt.Errorf("%s: %w", op, err)
+			}
+		case reflect.Slice:
+			if err := ef.filterSliceElements(ctx, f, filterOverrides, tm, opt...); err != nil {
+				return err
 			}
 		}
 	}
